@@ -17,6 +17,7 @@ type Scenario struct {
 	Phase    string `json:"phase,omitempty"`
 	Seed     uint64 `json:"seed"`
 	Run      int    `json:"run"`
+	Sub      int    `json:"sub,omitempty"`
 	Variant  string `json:"variant,omitempty"`
 
 	Knobs map[string]int `json:"knobs,omitempty"`
@@ -36,6 +37,10 @@ type Scenario struct {
 	Docs     [][]byte            `json:"docs_b64,omitempty"`
 	Tasks    []TaskScn           `json:"tasks,omitempty"`
 	Switches []simrt.SwitchEntry `json:"switches,omitempty"`
+
+	// Prelude: scenarios executed (verdicts ignored) in the same process before
+	// this one — the recorded history for defects that leak state between calls.
+	Prelude []*Scenario `json:"prelude,omitempty"`
 
 	Observed string `json:"observed,omitempty"`
 	Expected string `json:"expected,omitempty"`
@@ -97,6 +102,23 @@ type Failure struct {
 	Observed string
 	Expected string
 	Stack    string
+	Also     []string // further check ids that failed in the same run
+}
+
+// matches reports whether the failure belongs to the class of check id.
+func (f *Failure) matches(check string) bool {
+	if f == nil {
+		return false
+	}
+	if check == "" || f.Check == check {
+		return true
+	}
+	for _, a := range f.Also {
+		if a == check {
+			return true
+		}
+	}
+	return false
 }
 
 func docSHA(b []byte) string {
@@ -113,6 +135,7 @@ func (s *Scenario) clone() *Scenario {
 
 func (s *Scenario) digest() uint64 {
 	c := *s
+	c.Prelude, c.Sub = nil, 0
 	c.Seed, c.Run, c.Observed, c.Expected, c.Stack, c.Check, c.Note, c.DocSHA = 0, 0, "", "", "", "", "", ""
 	b, _ := json.Marshal(&c)
 	return hashBytes(0, b)
